@@ -36,6 +36,39 @@ S_MULTI = ["KdqTreeStreaming", "PCACD"]
 B_ALL = ["HDDDM", "CDBD", "KdqTreeBatch", "NNDVI"]
 
 
+def _user_det_class():
+    """A detector written by a user of the library: a level alarm on its single column, with its recommendation kept as a
+    plain instance attribute (ensembles take any object that follows the detector interface)."""
+    from menelaus.detector import StreamingDetector
+
+    class UserDet(StreamingDetector):
+        def __init__(self, level=2.0):
+            super().__init__()
+            self.level = level
+            self.retraining_recs = [None, None]
+
+        def update(self, X, y_true=None, y_pred=None):
+            if self.drift_state == "drift":
+                self.reset()
+            X, _, _ = super()._validate_input(X, None, None)
+            super().update(X, None, None)
+            v = float(np.ravel(X)[0])
+            self.drift_state = "drift" if abs(v) > self.level else ("warning" if abs(v) > 0.7 * self.level else None)
+            self.retraining_recs = [self.total_samples - 1, self.total_samples - 1] if self.drift_state == "drift" else [None, None]
+
+        def reset(self):
+            super().reset()
+            self.retraining_recs = [None, None]
+
+    return UserDet
+
+
+def _build(name, cfg, retype=None):
+    if name == "UserDet":
+        return _user_det_class()(**cfg)
+    return adapters.build(name, cfg, retype)
+
+
 class Seeded:
     """Member proxy: installs the numpy seed of (current step, member) before every call that may draw."""
 
@@ -81,16 +114,18 @@ def gen(rng, scenario, tier):
             names.append(rng.choice(names))     # the same class twice (other knobs / columns): instances must not share state
         if rng.random() < 0.12 and "PCACD" not in names:
             names += ["PCACD", "PCACD"]
+        if rng.random() < 0.2:
+            names.append("UserDet")         # a member class written by the user
     else:
         names = [rng.choice(B_ALL) for _ in range(rng.randint(2, 4))]
     members, sel = [], {}
     for j, nme in enumerate(names):
         key = f"{nme}_{j}"
-        cfg = adapters.sample_cfg(rng, nme)
+        cfg = adapters.sample_cfg(rng, nme) if nme != "UserDet" else {"level": rng.choice([1.5, 3.0, 6.0])}
         if nme == "PCACD":
             cfg["window_size"] = 20
         members.append([key, nme, cfg])
-        if nme in S_UNI or nme == "CDBD":
+        if nme in S_UNI or nme in ("CDBD", "UserDet"):
             sel[key] = [rng.randrange(W)]
         elif nme in S_MULTI or nme in B_ALL:
             c = rng.random()
@@ -137,7 +172,8 @@ def gen(rng, scenario, tier):
                 ev.append(["ref", b, np_seed(rng)])
             else:
                 ev.append(["u", b, np_seed(rng)])
-    return {"members": members, "selectors": sel, "election": election, "container": container, "events": ev,
+    int_ids = rng.random() < 0.2      # the members are registered under integer ids 0, 1, 2, ... (selectors keyed alike)
+    return {"int_ids": int_ids, "members": members, "selectors": sel, "election": election, "container": container, "events": ev,
             "drift_positions": drifts}
 
 
@@ -184,11 +220,13 @@ def run(case, ctx):
     container = case["container"]
     clock = [0]
     keys = [m[0] for m in case["members"]]
-    real = {k: adapters.build(n, cfg, case.get("retype")) for k, n, cfg in case["members"]}   # (the twins get the plain types)
-    twins = {k: adapters.build(n, cfg) for k, n, cfg in case["members"]}
+    real = {k: _build(n, cfg, case.get("retype")) for k, n, cfg in case["members"]}   # (the twins get the plain types)
+    twins = {k: _build(n, cfg) for k, n, cfg in case["members"]}
     members = {k: Seeded(real[k], k, clock) for k in keys}
     sels = {k: _selector(case["selectors"].get(k), container) for k in keys}
-    given = {k: f for k, f in sels.items() if f is not None}
+    ids = {k: (j if case.get("int_ids") else k) for j, k in enumerate(keys)}
+    given = {ids[k]: f for k, f in sels.items() if f is not None}
+    members = {ids[k]: m for k, m in members.items()}
     if given:
         ens = ctx.call("C12:ctor", (StreamingEnsemble if stream else BatchEnsemble), members, _make_election(case["election"]), given)
     else:   # no member needs a selector: the ensemble is built the short way
@@ -205,13 +243,13 @@ def run(case, ctx):
         if restored is not ens:
             ens = restored
             for k in keys:
-                real[k] = ens.detectors[k]._i
+                real[k] = ens.detectors[ids[k]]._i
         clock[0] = ev[-1] if ev[0] not in ("r", "swap") else 0
         if ev[0] == "swap":
             key, nme, mcfg = case["members"][ev[1] % len(case["members"])]
-            real[key] = adapters.build(nme, mcfg)
-            twins[key] = adapters.build(nme, mcfg)
-            ens.detectors[key] = Seeded(real[key], key, clock)      # the public dict of members is the ensemble's membership
+            real[key] = _build(nme, mcfg)
+            twins[key] = _build(nme, mcfg)
+            ens.detectors[ids[key]] = Seeded(real[key], key, clock)      # the public dict of members is the ensemble's membership
             ctx.fault("member_replaced_by_fresh_detector")
             fresh_member = True
             if stream is False:
@@ -310,11 +348,11 @@ def run(case, ctx):
                 raise EndRun()
         states = [real[k].drift_state for k in keys]
         ds = ctx.call("C12:drift_states", lambda: ens.drift_states)
-        if list(ds.items()) != list(zip(keys, states)):
-            ctx.violation("drift_states", "C12:drift_states", f"event {i}: ensemble.drift_states={ds}, members {list(zip(keys, states))}")
+        if list(ds.items()) != list(zip([ids[k] for k in keys], states)):
+            ctx.violation("drift_states", "C12:drift_states", f"event {i}: ensemble.drift_states={ds}, members {list(zip([ids[k] for k in keys], states))}")
             raise EndRun()
         rr = ctx.call("C12:retraining_recs", lambda: ens.retraining_recs)
-        exp_rr = [(k, adapters._num(real[k].retraining_recs)) for k in keys if hasattr(real[k], "retraining_recs")]
+        exp_rr = [(ids[k], adapters._num(real[k].retraining_recs)) for k in keys if hasattr(real[k], "retraining_recs")]
         if [(k, adapters._num(v)) for k, v in rr.items()] != exp_rr:
             ctx.violation("retraining_recs", "C12:retraining_recs", f"event {i}: ensemble.retraining_recs={rr}, members {exp_rr}")
             raise EndRun()
